@@ -39,7 +39,7 @@ Lemma arith_min_neg1 : arith OP_DIV (-9223372036854775808) (-1) = Some (-9223372
 Proof. repeat split; reflexivity. Qed.
 
 Definition mval_of (v : value) : mval :=
-  match v with VInt z => MInt z | VBool b => MBool b | VVoid => MVoid | VStr s => MStr s end.
+  match v with VInt z => MInt z | VBool b => MBool b | VVoid => MVoid | VStr s => MStr s | VArr l => MArr (map MInt l) end.
 
 (* comparisons on ints and equality on ints/bools *)
 Lemma cmp_matches_ref o x y :
